@@ -29,6 +29,7 @@ class Ob:
     what: str = ""                # one line: what is asserted, with bounds
     env: Dict[str, str] = field(default_factory=dict)
     per_path: Optional[float] = None
+    skip: Optional[dict] = None   # {"func": [call expressions]}: argument tuples to step over (set by the runner)
 
     @property
     def oid(self):
@@ -50,11 +51,39 @@ def _env_for(ob: Ob, exclusions: dict, count_file: Optional[str] = None):
     env["PYTHONHASHSEED"] = "0"
     env["VERIF_PART"] = ob.part or ""
     env["VERIF_EXCLUDE"] = json.dumps(exclusions)
+    env["VERIF_SKIP"] = json.dumps(getattr(ob, "skip", None) or {})
     env["PEDAL_EDU_PEDAL_VERIF"] = "1"
     env.update(ob.env)
     if count_file:
         env["VERIF_COUNT_FILE"] = count_file
     return env
+
+
+MAX_ROUNDS = 4
+
+
+def run_xh_rounds(ob: Ob, exclusions: dict) -> dict:
+    """Runs the obligation; a counterexample that does not replay natively (CrossHair model / process-history
+    divergence) is stepped over and the search continues, up to MAX_ROUNDS times. The final result carries the list of
+    stepped-over calls."""
+    stepped = []
+    res = None
+    for _ in range(MAX_ROUNDS):
+        res = run_xh(ob, exclusions)
+        if ob.expect != "confirm" or res.get("verdict") != "refuted":
+            break
+        call = counterexample_call(res)
+        if call is None:
+            break
+        rep = replay_native(ob.file, call, part=ob.part, env_extra=ob.env)
+        res["counterexample"], res["replay"] = call, rep
+        if rep.get("outcome") in ("false", "exception"):
+            break
+        stepped.append(call)
+        ob.skip = {ob.func: list(stepped)}
+    if res is not None:
+        res["stepped_over"] = stepped
+    return res
 
 
 def run_xh(ob: Ob, exclusions: dict) -> dict:
@@ -164,7 +193,7 @@ class Run:
         random.Random(self.seed).shuffle(order)
         order.sort(key=lambda o: -o.timeout)
         with cf.ThreadPoolExecutor(max_workers=max(1, min(jobs, len(order) or 1))) as ex:
-            futs = {ex.submit(run_xh, ob, exclusions): ob for ob in order}
+            futs = {ex.submit(run_xh_rounds, ob, exclusions): ob for ob in order}
             for fut in cf.as_completed(futs):
                 ob = futs[fut]
                 res = fut.result()
@@ -210,14 +239,19 @@ class Run:
                 res["outcome"] = "inconclusive"
                 res["reason"] = "reachability twin: " + str(v)
         else:
-            if v == "confirmed":
+            if v == "confirmed" and res.get("stepped_over"):
+                res["outcome"] = "inconclusive"
+                res["reason"] = "confirmed only after stepping over %d non-replaying counterexample(s): %s" % (
+                    len(res["stepped_over"]), "; ".join(res["stepped_over"])[:300])
+                self.harness_errors.append(ob.oid + ": non-replaying counterexample(s) " + "; ".join(res["stepped_over"])[:300])
+            elif v == "confirmed":
                 res["outcome"] = "discharged"
             elif v == "refuted":
                 if call is None:
                     res["outcome"] = "inconclusive"
                     res["reason"] = "counterexample without a call expression"
                 else:
-                    rep = replay_native(ob.file, call, part=ob.part, env_extra=ob.env)
+                    rep = res.get("replay") or replay_native(ob.file, call, part=ob.part, env_extra=ob.env)
                     res["counterexample"] = call
                     res["replay"] = rep
                     if rep.get("outcome") in ("false", "exception"):
